@@ -4,6 +4,7 @@ import (
 	"fmt"
 	"strings"
 
+	"verifharness/asmsys"
 	"verifharness/vh"
 )
 
@@ -261,6 +262,8 @@ func genCloseUnderLoad(g *vh.Gen) (string, string) {
 }
 
 func gen(g *vh.Gen) {
+	// the assembled system (server.FullAssembly + Services.Start), one child process per case
+	asmsys.Gen(g, "asm15")
 	for i := 0; i < g.N(2, 40); i++ {
 		n, ops := genCloseUnderLoad(g)
 		g.Emit("hub", n, ops)
